@@ -21,8 +21,9 @@ LEAN_SETTING_NOTE = (
 
 
 def _specs_head(tier):
-    from .format_props import specs_head
-    return specs_head(tier)
+    # ... and the projection of every input term on the subspaces (block (i, j) of what the algorithm sees IS L_i^dagger A R_j, whatever the term looks like in the original basis)
+    from .format_props import specs_head, specs_projection
+    return specs_head(tier) + specs_projection(tier)
 
 
 def specs_hermitian(tier):
